@@ -11,6 +11,14 @@ structure DSt where
   v : Variant
   h : Host
   d : Dev
+  nr : Bool := false
+  pats : List (Pat × Nat) := []
+  timers : List RTimer := []
+
+def DSt.sysR (st : DSt) : SysR := { base := { host := st.h, dev := st.d, down := [] }, nr := st.nr, pats := st.pats, timers := st.timers }
+
+def showTState : TState → String
+  | .armed => "A" | .expired => "E" | .done => "D" | .cancelled => "C"
 
 def showCn (cn : List Nat) : String := ".".intercalate (cn.map toString)
 
@@ -107,7 +115,7 @@ def step (st : DSt) (ws : List String) : DSt × String :=
   match ws with
   | ["reset", routing, snap, v2, toc] =>
     match routing.toNat?, parseBool? snap, parseBool? v2, parseToc? toc with
-    | some r, some s, some v, some t => ({ st with v := { routing := r, snap := s }, h := Host.init t v }, "ok -")
+    | some r, some s, some v, some t => ({ st with v := { routing := r, snap := s }, h := Host.init t v, nr := false, pats := [], timers := [] }, "ok -")
     | _, _, _, _ => bad
   | ["force-init"] => ({ st with h := { st.h with initialized := true, isUpdated := true } }, "ok -")
   | ["set", cn, v, inCb, orc] =>
@@ -158,11 +166,44 @@ def step (st : DSt) (ws : List String) : DSt × String :=
     match updGet st.h with
     | none => (st, "disabled")
     | some h1 => match updSend h1 with
-      | some r => upd r
+      | some r =>
+        -- Crazyflie.send_packet: on a needs_resending link a retry timer is armed for (header, expected reply)
+        let st1 : DSt := match r.2 with
+          | [.tx p] =>
+            let P := patOf h1.updV2 p
+            if Gen.C04.sendArms true (!P.2.isEmpty) false st.nr (getPat st.pats P).isSome false then
+              { st with pats := setPat st.pats P st.timers.length, timers := st.timers ++ [⟨p, P, .armed⟩] }
+            else st
+          | _ => st
+        ({ st1 with h := r.1 }, showOuts r.2)
       | none => (st, "disabled")
+  | ["retry-reset", nr] =>
+    match parseBool? nr with
+    | some b => ({ st with nr := b, pats := [], timers := [] }, "ok -")
+    | none => bad
+  | ["texpire", i] =>
+    match i.toNat? with
+    | some i => match st.sysR.step (fun _ => .error .other) st.v (.expire i) with
+      | some (s', _, _) => ({ st with timers := s'.timers }, "ok -")
+      | none => (st, "disabled")
+    | none => bad
+  | ["trun", i] =>
+    match i.toNat? with
+    | some i => match st.sysR.step (fun _ => .error .other) st.v (.timerRun i) with
+      | some (s', _, w) =>
+        let tok := match w with
+          | [.retx p] => s!"retx:{p.chan}:{toHex p.data} dev={",".intercalate (s'.base.down.map fun q => s!"{q.chan}:{toHex q.data}")}"
+          | _ => "-"
+        ({ st with timers := s'.timers, pats := s'.pats, d := s'.base.dev }, "ok " ++ tok)
+      | none => (st, "disabled")
+    | none => bad
+  | ["tstate"] => (st, "ok " ++ (if st.timers.isEmpty then "-" else String.join (st.timers.map fun t => showTState t.state)))
   | ["rx", chan, data] =>
     match chan.toNat?, ofHex? data with
-    | some c, some d => upd (rx st.v st.h { chan := c, data := d })
+    | some c, some d =>
+      let s1 := st.sysR.onReceive { chan := c, data := d }     -- `_check_for_answers` runs before the port callbacks
+      let r := rx st.v st.h { chan := c, data := d }
+      ({ st with h := r.1, pats := s1.pats, timers := s1.timers }, showOuts r.2)
     | _, _ => bad
   | ["state"] => (st, showState st.h)
   | ["devreset", v2, ps] =>
